@@ -147,4 +147,60 @@ SPECS = {
                 'happened; distinct = digest of (request outcome, result source)',
         'assumptions': _EDIT_ASSUME + ['only pattern/template families the reference can mirror exactly are generated; requests whose reference result is not valid Python are not judged'],
     },
+    'C20': {
+        'engine': 'threadsim', 'mod': 'sim.engines', 'quick': 1500, 'thorough': 25000, 'level': 'exploration',
+        'rule': 'one evaluation = one seeded schedule: 2-4 REAL threads, each with its own tree and a script of 3-10 ops '
+                '(set_options, nested options() blocks incl. bodies that raise = fault O1, invalid option names/values = '
+                'fault F5, edits and copies with and without per-call options, get_options() snapshots); only one thread is '
+                'runnable at a time: a sys.settrace line counter pre-empts the running thread inside pfst code after a drawn '
+                'quantum (mean 5-500 lines, fault T1) and hands the baton to the thread the PRNG picks; oracle: per-op '
+                'records (return/exception, source hash, option snapshots) of every thread == the same script run alone '
+                'in a fresh thread; option store == sequential model after every op; modification registry empty at '
+                'quiescence; non-trivial = at least one context switch inside pfst code; distinct = digest of (records, '
+                'scheduling decisions)',
+        'assumptions': ['pre-emption granularity is one traced source line inside /repo/src/fst (not bytecode)', 'each thread edits its own tree (the property does not cover sharing one tree between threads)'],
+        'real_vs_stub': 'all pfst code ran real on real threads; harness-side: baton scheduler (threading.Event per thread) and trace-based pre-emption; stubs: none',
+        'det_sample': 6,
+    },
 }
+
+LEVEL_TEXT = {
+    'C01': 'Seeded exploration of edit histories on generated programs with an oracle that shares no code with pfst (ast.parse of the current source, compared with positions). Evidence, not proof: the space (programs x histories x targets x code forms x options) is sampled with a fixed run count per tier.',
+    'C02': 'Seeded exploration of interleavings of cache-populating queries with edits; every observable answer of every node is compared with a freshly built tree. Relational oracle (pfst on a fresh tree), so it decides staleness, not absolute correctness of answers.',
+    'C03': 'Model conformance op by op: each vetted container request is executed on the real tree and on a Python-list model of the pure AST; all equivalent entry points and a layout twin must agree with the model. Sampling of containers/bounds/entry points, not enumeration.',
+    'C04': 'Seeded exploration on unique-token programs: token loss/duplication/reordering outside an upper-bound window is decided exactly by tokenize; line preservation outside the window byte for byte. Sound but not complete (window is an upper bound).',
+    'C07': 'Seeded exploration of read operations inside edit histories with bit-identical source-tree snapshots, standalone parse of returned trees and forked cut vs copy+delete differentials.',
+    'C08': 'Seeded exploration of two-step round-trip histories (cut ... put back, self replacement in four code forms, accessor write->read) with structural equality before/after.',
+    'C10': 'Seeded exploration of raw edit histories; full re-parse of the requested splice as reference; atomicity on raise. Requests matching listed input predicates are counted as known findings.',
+    'C11': 'Seeded exploration of trivia-only offset edits at token gaps inside histories, compared with a from-scratch parse including every position.',
+    'C12': 'Fault enumeration: 12 kinds of invalid request are enumerated (swarm subset per run) against sampled states and targets inside histories; each raising request is checked for exact rollback, lock release and a following valid edit.',
+    'C13': 'Seeded exploration of pure-AST mutation histories with mark/reconcile rounds, plus fault injection (P1) into the reconciler\'s own puts to drive its retry-at-parent recovery path.',
+    'C15': 'Seeded search over schedules: at every generator yield a scheduler action (mutation or send) is drawn; safety monitors run at every yield and an order oracle in restricted schedules. Every schedule is one exactly repeatable execution.',
+    'C17': 'PARTIAL: only "a match never depends on previous match calls" and "search == filtered walk" are decided, by seeded schedules of interleaved live generators and match calls compared with the same calls run alone in forked children.',
+    'C18': 'Seeded exploration of subn() requests with simulator callbacks injecting queries mid-substitution, compared with an independent source-ordered transformer on the pure AST (structure and counts), C01 and token conservation.',
+    'C20': 'Seeded search over thread interleavings: real threads stepped one at a time by a baton scheduler with line-granular pre-emption inside pfst; each thread\'s results must equal its results when run alone, and the option store must follow a sequential model.',
+}
+
+ENGINES = [
+    {'name': 'editsim', 'path': 'sim/editsim.py', 'serves_properties': ['C01', 'C02', 'C03', 'C04', 'C07', 'C08', 'C10', 'C11', 'C12'],
+     'kind_free_text': 'sequential history machine: seeded program + op/fault history on the real pfst tree, reference model from ast.parse/tokenize, op-by-op oracles (plugins in sim/props_*.py)'},
+    {'name': 'reconsim', 'path': 'sim/reconsim.py', 'serves_properties': ['C13'],
+     'kind_free_text': 'mark / pure-AST mutation history / reconcile rounds with fault P1 injected into the reconciler puts'},
+    {'name': 'walksim', 'path': 'sim/walksim.py', 'serves_properties': ['C15'],
+     'kind_free_text': 'coroutine scheduler acting at every yield of walk()/search()'},
+    {'name': 'matchsim', 'path': 'sim/matchsim.py', 'serves_properties': ['C17'],
+     'kind_free_text': 'scheduler over several live search() generators and match() calls; forked run-alone references'},
+    {'name': 'subsim', 'path': 'sim/subsim.py', 'serves_properties': ['C18'],
+     'kind_free_text': 'subn() with query-injecting callbacks vs pure-AST reference transformer'},
+    {'name': 'threadsim', 'path': 'sim/threadsim.py', 'serves_properties': ['C20'],
+     'kind_free_text': 'real threads under a seeded baton scheduler with sys.settrace line-granular pre-emption'},
+]
+
+NOT_APPLICABLE = [
+    {'property_id': 'C05', 'reason': 'pure function of (source text, parse mode): no state, schedule, fault or history for a simulator to control; needs differential input testing, which is another technique'},
+    {'property_id': 'C06', 'reason': 'pure function of the program (locations of a quiescent tree); on edited trees it reduces to C02, which is claimed'},
+    {'property_id': 'C09', 'reason': 'a finite (parent field x child kind x layout) table to be enumerated with the parser as judge: no state, schedule or fault; its failures do surface as C01 parse mismatches but C09 itself is not claimed'},
+    {'property_id': 'C14', 'reason': 'pure function of a quiescent tree and walk parameters; the dynamic aspects are covered where they belong (walk under mutation: C15; navigation after edits: C02)'},
+    {'property_id': 'C16', 'reason': 'pure function of the program (comparison with symtable); nothing for a scheduler or fault injector to act on'},
+    {'property_id': 'C19', 'reason': 'pure function of (node, mode, options); the copy/non-copy contract is per call, not a history'},
+]
